@@ -514,6 +514,38 @@ fn pools_mode(rng: &mut Rng, n: usize, thorough: bool) {
   }
 }
 
+/// Simpson's rule is exact on cubics: Integrator::Simpson on polynomials that do NOT vanish at the upper limit, for division counts on
+/// both sides of the 128-division threshold (sequential / parallel branch of `simpson`) and on pools of 1..16 threads; 2-D likewise.
+fn simpson_mode(rng: &mut Rng, n: usize) {
+  let divs_list: [usize; 16] = [4, 6, 50, 100, 126, 127, 128, 129, 130, 131, 132, 133, 140, 200, 256, 1000];
+  let divs2_list: [usize; 5] = [4, 6, 11, 20, 50];
+  for case in 0..n {
+    let c: Vec<f64> = (0..4).map(|_| rng.range(0.5, 2.)).collect();
+    let ci: Vec<f64> = (0..4).map(|_| rng.range(0.5, 2.)).collect();
+    let (a, b) = (rng.range(-1., 0.), rng.range(0.5, 2.));
+    let (a2, b2) = (rng.range(-1., 0.), rng.range(0.5, 2.));
+    emit(json!({"kind": "simpson_ref", "case": case, "c": fxs(&c), "ci": fxs(&ci), "a": fx(a), "b": fx(b), "a2": fx(a2), "b2": fx(b2)}));
+    for threads in [0usize, 1, 2, 3, 4, 5, 8, 16] {
+      let (c1, c2) = (c.clone(), ci.clone());
+      let work = move || {
+        let p = |x: f64| c1[0] + x * (c1[1] + x * (c1[2] + x * c1[3]));
+        let q = |x: f64| c2[0] + x * (c2[1] + x * (c2[2] + x * c2[3]));
+        let one: Vec<(usize, Complex<f64>)> = divs_list.iter().map(|d| (*d, Integrator::Simpson { divs: *d }.integrate(|x| Complex::new(p(x), q(x)), a, b))).collect();
+        // f(x, y) = p(x) q(y) + i (x + y + 3): cubic in each variable, non-zero on the upper edges
+        let two: Vec<(usize, Complex<f64>)> = divs2_list.iter().map(|d| (*d, Integrator::Simpson { divs: *d }.integrate2d(|x, y| Complex::new(p(x) * q(y), x + y + 3.), a, b, a2, b2))).collect();
+        (rayon::current_num_threads(), one, two)
+      };
+      // threads = 0: the global pool, as the library is normally used
+      let r = if threads == 0 { Some(work()) } else { on_pool(threads, 300, "simpson on polynomials", work) };
+      if let Some((nthreads, one, two)) = r {
+        emit(json!({"kind": "simpson", "case": case, "threads": threads, "current_num_threads": nthreads,
+          "one": one.iter().map(|(d, z)| json!([d, fx(z.re), fx(z.im)])).collect::<Vec<_>>(),
+          "two": two.iter().map(|(d, z)| json!([d, fx(z.re), fx(z.im)])).collect::<Vec<_>>()}));
+      }
+    }
+  }
+}
+
 pub fn run(args: &[String]) {
   let seed = arg_u64(args, 0, 1);
   let n = arg_u64(args, 1, 2) as usize;
@@ -525,6 +557,9 @@ pub fn run(args: &[String]) {
   }
   if mode == "pools" || mode == "all" {
     pools_mode(&mut rng, n, thorough);
+  }
+  if mode == "simpson" || mode == "all" {
+    simpson_mode(&mut rng, n);
   }
   emit(json!({"kind": "done", "mode": mode}));
 }
